@@ -230,11 +230,34 @@ func NewAuthorizationCodeHandler(config *AuthorizationCodeHandlerConfig) (*Autho
 	if config.Client == nil {
 		config.Client = http.DefaultClient
 	}
+	config.Client = withSafeRedirects(config.Client)
 	return &AuthorizationCodeHandler{
 		config:        config,
 		tokenSource:   config.InitialTokenSource,
 		grantedScopes: make(map[string][]string),
 	}, nil
+}
+
+// withSafeRedirects returns a copy of c that refuses to follow a redirect to a
+// URL that is neither HTTPS nor a loopback address. Every metadata,
+// registration and token endpoint is checked before it is contacted; a
+// redirect must not lead such a request to an endpoint that the flow would
+// have refused to contact directly.
+func withSafeRedirects(c *http.Client) *http.Client {
+	cc := *c
+	cc.CheckRedirect = func(req *http.Request, via []*http.Request) error {
+		if req.URL.Scheme != "https" && !util.IsLoopback(req.URL.Host) {
+			return fmt.Errorf("refusing redirect to %q: it does not use HTTPS or is not a loopback address", req.URL)
+		}
+		if c.CheckRedirect != nil {
+			return c.CheckRedirect(req, via)
+		}
+		if len(via) >= 10 {
+			return errors.New("stopped after 10 redirects")
+		}
+		return nil
+	}
+	return &cc
 }
 
 func isNonRootHTTPSURL(u string) bool {
